@@ -242,26 +242,90 @@ def _none_test(test, none_params):
     return None
 
 
+def _atom_ok(e):
+    return not any(isinstance(n, (ast.Call, ast.Await, ast.Yield, ast.NamedExpr, ast.Lambda)) for n in ast.walk(e))
+
+
+def _eval3(test, facts, none_params):
+    """True / False / None (unknown) for a branch test when ``none_params`` are None and ``facts`` hold."""
+    if isinstance(test, ast.Compare) and len(test.ops) == 1 and isinstance(test.left, ast.Name) and test.left.id in none_params \
+            and isinstance(test.comparators[0], ast.Constant) and test.comparators[0].value is None:
+        if isinstance(test.ops[0], ast.Is):
+            return True
+        if isinstance(test.ops[0], ast.IsNot):
+            return False
+    if isinstance(test, ast.UnaryOp) and isinstance(test.op, ast.Not):
+        v = _eval3(test.operand, facts, none_params)
+        return None if v is None else (not v)
+    if isinstance(test, ast.BoolOp):
+        vals = [_eval3(v, facts, none_params) for v in test.values]
+        if isinstance(test.op, ast.And):
+            return False if any(v is False for v in vals) else (True if all(v is True for v in vals) else None)
+        return True if any(v is True for v in vals) else (False if all(v is False for v in vals) else None)
+    return facts.get(ast.unparse(test))
+
+
+def _learn(test, value, facts, none_params):
+    """Record that ``test`` evaluated to ``value``."""
+    if isinstance(test, ast.UnaryOp) and isinstance(test.op, ast.Not):
+        _learn(test.operand, not value, facts, none_params)
+        return
+    if isinstance(test, ast.BoolOp):
+        conj = isinstance(test.op, ast.And)
+        if value == conj:
+            # every operand of a true `and` is true; every operand of a false `or` is false
+            for v in test.values:
+                _learn(v, value, facts, none_params)
+        else:
+            # a false `and` (true `or`) whose other operands are known true (false) pins the remaining one
+            rest = [v for v in test.values if _eval3(v, facts, none_params) is not conj]
+            if len(rest) == 1:
+                _learn(rest[0], value, facts, none_params)
+        return
+    if _atom_ok(test) and _eval3(test, facts, none_params) is None:
+        facts[ast.unparse(test)] = value
+
+
+def _kill(stmt, facts):
+    stored = {n.id for n in ast.walk(stmt) if isinstance(n, ast.Name) and isinstance(n.ctx, (ast.Store, ast.Del))}
+    has_call = any(isinstance(n, ast.Call) for n in ast.walk(stmt))
+    for k in list(facts):
+        t = ast.parse(k, mode="eval")
+        names = {n.id for n in ast.walk(t) if isinstance(n, ast.Name)}
+        if names & stored or (has_call and any(isinstance(n, (ast.Attribute, ast.Subscript)) for n in ast.walk(t))):
+            del facts[k]
+
+
 def live_statements(func, none_params=frozenset()):
-    """Statements (and their sub-nodes) reachable when the parameters in ``none_params`` are None."""
+    """Statements (and their sub-nodes) reachable when the parameters in ``none_params`` are None.  Branch tests are
+    evaluated three-valued from the None parameters and the facts learned from earlier tests on the same path
+    (``if a and p is None: return`` leaves ``a`` false afterwards)."""
     out = []
 
-    def block(stmts):
+    def block(stmts, facts):
+        """True when the block cannot fall through."""
         for s in stmts:
             if isinstance(s, ast.If) and none_params:
-                k = _none_test(s.test, none_params)
-                if k == "isnot":
-                    out.extend(ast.walk(s.test))
-                    block(s.orelse)
-                    if s.orelse and _terminates(s.orelse):
-                        return
+                v = _eval3(s.test, facts, none_params)
+                out.extend(ast.walk(s.test))
+                if v is not None:
+                    if block(s.body if v else s.orelse, facts):
+                        return True
                     continue
-                if k == "is":
-                    out.extend(ast.walk(s.test))
-                    block(s.body)
-                    if _terminates(s.body):
-                        return
-                    continue
+                out.append(s)
+                fb, fo = dict(facts), dict(facts)
+                _learn(s.test, True, fb, none_params)
+                _learn(s.test, False, fo, none_params)
+                tb = block(s.body, fb)
+                to = block(s.orelse, fo)
+                if tb and to:
+                    return True
+                _kill(s, facts)
+                if tb:
+                    facts.update({k: v for k, v in fo.items()})
+                elif to:
+                    facts.update({k: v for k, v in fb.items()})
+                continue
             if isinstance(s, (ast.If, ast.For, ast.While, ast.With, ast.Try)):
                 for fld in ("test", "iter", "target", "items"):
                     v = getattr(s, fld, None)
@@ -271,21 +335,24 @@ def live_statements(func, none_params=frozenset()):
                         for it in v:
                             out.extend(ast.walk(it))
                 out.append(s)
-                block(getattr(s, "body", []))
+                _kill(s, facts)
+                tb = block(getattr(s, "body", []), dict(facts))
                 for h in getattr(s, "handlers", []):
-                    block(h.body)
-                block(getattr(s, "orelse", []))
-                block(getattr(s, "finalbody", []))
-                if isinstance(s, ast.If) and s.orelse and _terminates(s.body) and _terminates(s.orelse):
-                    return
+                    block(h.body, dict(facts))
+                to = block(getattr(s, "orelse", []), dict(facts))
+                block(getattr(s, "finalbody", []), dict(facts))
+                if isinstance(s, ast.If) and s.orelse and tb and to:
+                    return True
                 continue
             if isinstance(s, (ast.FunctionDef, ast.ClassDef)):
                 continue
             out.extend(n for n in ast.walk(s) if not isinstance(n, (ast.FunctionDef, ast.Lambda)) or n is s)
+            _kill(s, facts)
             if isinstance(s, (ast.Return, ast.Raise)):
-                return
+                return True
+        return False
 
-    block(func.body)
+    block(func.body, {})
     return out
 
 
